@@ -2,6 +2,7 @@
 
 REGISTRY = {
     "C07": "harness.c07_rtp",
+    "C08": "harness.c08_sctp",
     "C10": "harness.c10_jitter",
     "C17": "harness.c17_serial",
 }
